@@ -102,13 +102,16 @@ func r07_1(c *Ctx, rule string) {
 	if loop == nil {
 		return
 	}
+	defer c.scope(loop)()
 	phi, upd := idCounter(c, loop)
 	if upd == nil {
 		c.R.Missing(rule, "update of receiver.files in the receive loop")
 		return
 	}
 	if phi == nil {
-		if cell := c.P.LoadedCell(upd.Value); cell != "" {
+		// (the id may reach the update through a helper's parameter, or be
+		// what the method of a counter object returns)
+		if cell := c.P.LoadedCell(eng.Strip(upd.Value)); cell != "" {
 			r07_1mem(c, rule, loop, upd, cell)
 			return
 		}
@@ -162,8 +165,23 @@ func r07_1(c *Ctx, rule string) {
 
 // counterIncs splits the stores to the counter cell into increments by one
 // (`cell = cell + 1`) and the rest.
-func counterIncs(c *Ctx, cell string) (incs, others []*ssa.Store) {
-	for _, s := range c.P.CellStores(cell) {
+func counterIncs(c *Ctx, fn *ssa.Function, cell string) (incs, others []*ssa.Store) {
+	all := append([]*ssa.Store(nil), c.P.CellStores(cell)...)
+	// (a store inside a helper shared with other anchors - the method of a
+	// small counter type - names this cell only when read in fn's context)
+	if fn != nil {
+		have := map[*ssa.Store]bool{}
+		for _, s := range all {
+			have[s] = true
+		}
+		eng.Instrs(fn, func(in ssa.Instruction) {
+			if s, ok := in.(*ssa.Store); ok && !have[s] && c.P.CellID(s.Addr) == cell {
+				have[s] = true
+				all = append(all, s)
+			}
+		})
+	}
+	for _, s := range all {
 		isInc := false
 		if bo, ok := s.Val.(*ssa.BinOp); ok && bo.Op == token.ADD && c.P.LoadedCell(bo.X) == cell {
 			if k, ok := eng.ConstInt(bo.Y); ok && k == 1 {
@@ -193,7 +211,7 @@ func r07_1mem(c *Ctx, rule string, loop *ssa.Function, upd *ssa.MapUpdate, cell 
 	cond, _ := nilTest.Cond.(ssa.Instruction)
 	inLoop := map[ssa.Instruction]bool{}
 	eng.Instrs(loop, func(in ssa.Instruction) { inLoop[in] = true })
-	incs, others := counterIncs(c, cell)
+	incs, others := counterIncs(c, loop, cell)
 	initOK := true
 	for _, s := range others {
 		if k, ok := eng.ConstInt(s.Val); !ok || k != 0 || (inLoop[s] && eng.InCycle(s.Block())) {
@@ -263,9 +281,10 @@ func r07_2(c *Ctx, rule string) {
 		return
 	}
 	con := c.name(loop) + "/files-update"
-	if cell := c.P.LoadedCell(upd.Value); phi == nil && cell != "" {
+	defer c.scope(loop)()
+	if cell := c.P.LoadedCell(eng.Strip(upd.Value)); phi == nil && cell != "" {
 		// counter kept in memory: the stored id is a load of the counter that no increment of this iteration precedes
-		incs, _ := counterIncs(c, cell)
+		incs, _ := counterIncs(c, loop, cell)
 		recv := mainRecv(c, loop)
 		ld, _ := eng.Strip(upd.Value).(ssa.Instruction)
 		pre := recv != nil && ld != nil && len(incs) > 0
